@@ -36,6 +36,8 @@ ASSUMPTIONS = [
 TRAIN = {"X": [[0.0], [1.0], [2.5], [6.0], [7.0]], "labels": [0, 0, 1, 1, 0]}
 TRAIN10 = {"X": [[0.0], [1.0], [2.5], [6.0], [7.0], [7.5], [11.0], [12.0], [20.0], [21.5]],
            "labels": [0, 0, 1, 1, 0, 1, 0, 0, 1, 1]}
+TRAIN14 = {"X": [[float(i) * 1.5 + (i % 3) * 0.2] for i in range(14)],
+           "labels": [0, 0, 1, 1, 0, 1, 0, 0, 1, 1, 0, 1, 1, 0]}
 TRAIN2 = {"X": [[0.0, 0.0], [1.0, 0.0], [0.0, 1.0], [5.0, 5.0], [5.0, 6.0]], "labels": [0, 1, 0, 1, 1]}
 
 
@@ -51,6 +53,10 @@ def plan(tier, seed):
     for n in (3, 4) + ((5,) if tier == "thorough" else ()):
         for a, b in E.chunks(4 ** n, 16):
             shards.append(("nat", n, a, b))
+    # twelve candidates (two-digit k) on a fourteen-sample set: the top accuracy at every single k
+    # and at every pair of k (ties between one- and two-digit candidates)
+    for part in range(4):
+        shards.append(("sk14", part))
     # candidate ranges up to k = 9 on a ten-sample set (ranges that cross 8 included)
     for mx in range(1, 10):
         for mn in range(max(1, mx - 3), mx + 1):
@@ -281,6 +287,17 @@ def _programs(shard, seed):
             yield {"model": "KNNSupervisedOPF", "mode": "features", "X": X, "metric": "euclidean",
                    "labels": T["labels"], "max_k": mk, "val": {"X": X, "labels": T["labels"]},
                    "script": list(script)}
+    elif kind == "sk14":
+        X = (np.array(TRAIN14["X"]) * sc).tolist()
+        ks = list(range(12))
+        subsets = [()] + [(a,) for a in ks] + list(itertools.combinations(ks, 2))
+        for si, sub in enumerate(subsets):
+            if si % 4 != shard[1]:
+                continue
+            script = [1.0 if k in sub else 0.5 for k in ks]
+            yield {"model": "KNNSupervisedOPF", "mode": "features", "X": X, "metric": "euclidean",
+                   "labels": TRAIN14["labels"], "max_k": 12, "val": {"X": X, "labels": TRAIN14["labels"]},
+                   "script": script}
     elif kind == "su10":
         _, mn, mx = shard
         X = (np.array(TRAIN10["X"]) * sc).tolist()
